@@ -367,8 +367,8 @@ def inspect_selection_unit(res):
     ins.fn["line_number"] = lineno
     parsed = SymSeq(NP, lambda i: SRef(i, ins))
     section = SymSeq(NK, lambda i: SRef(z3.Function("section_line", I, I)(i), ins))
-    for with_lines in (False, True):
-        for with_arch in (False, True):
+    for with_lines, with_arch, first_fails in [(l, a, f) for l in (False, True) for a in (False, True) for f in (False, True) if not (f and l)]:
+        if True:
             def run():
                 code = Opaque("code")
 
@@ -382,16 +382,23 @@ def inspect_selection_unit(res):
                         return "file.s" if attr == "name" else PyMethod(self, attr)
 
                 class Parser:
+                    def __init__(self, arch):
+                        self.arch = arch
+
                     def sym_method(self, ex_, name, args, kw):
                         if name == "parse_file" and args[0] is code:
+                            seen.setdefault("parsers", []).append(self.arch)
+                            if first_fails and len(seen["parsers"]) == 1:
+                                raise PyRaise("ValueError", "wrong parser for this file")
                             return parsed
                         raise Unsupported("parser." + name)
 
                 args = SObj("Namespace", file=File(), arch="zen2" if with_arch else None, verbose=SBool(z3.Bool("verbose")), ignore_unknown=SBool(z3.Bool("ignore_unknown")),
                             lines=G["LinesStr"]() if with_lines else None, fixed=SBool(z3.Bool("fixed")), lcd_timeout=SNum(z3.Int("lcd_timeout"), True),
                             consider_flag_deps=SBool(z3.Bool("flag_deps")), dotpath=None, yaml_out=Opaque("yaml stream") if with_arch else None)
-                ex.abstract["get_asm_parser"] = lambda ex_, so, a, kw: Parser()
+                ex.abstract["get_asm_parser"] = lambda ex_, so, a, kw: Parser(a[0])
                 seen = {}
+                ISA_OF = {"zen2": "x86", "a64fx": "aarch64"}
 
                 class BaseParserG:
                     def sym_method(self, ex_, name, a, kw):
@@ -403,7 +410,7 @@ def inspect_selection_unit(res):
                     def sym_method(self, ex_, name, a, kw):
                         if name == "get_isa_for_arch":
                             seen["isa_for"] = a[0]
-                            return "x86"
+                            return ISA_OF[a[0]]
                         raise Unsupported("MachineModel." + name)
 
                     def __call__(self, ex_, *a, **kw):
@@ -443,7 +450,7 @@ def inspect_selection_unit(res):
                 def mm(ex_, so, a, kw):
                     env = ex_.cur_env
                     ex_.extra.update(kernel=env["kernel"], plw=env["print_length_warning"], paw=env["print_arch_warning"], rts=seen.get("rts"), log=log, made=made,
-                                     timed_out=timed_out, mm_args=(list(a), dict(kw)))
+                                     timed_out=timed_out, mm_args=(list(a), dict(kw)), parsers=list(seen.get("parsers", [])))
                     made["MachineModel"] = Rec("MachineModel")
                     return made["MachineModel"]
 
@@ -451,11 +458,11 @@ def inspect_selection_unit(res):
                 ex.call_function("inspect", [args])
 
             paths = ex.explore(run, G["pre"] + [NP >= 0, NK >= 0, NK <= NP])
-            tag = f"lines={int(with_lines)}/arch={int(with_arch)}"
+            tag = f"lines={int(with_lines)}/arch={int(with_arch)}/first-parse-fails={int(first_fails)}"
             got = 0
             for p in paths:
                 if "kernel" not in p.extra:
-                    if p.outcome[0] == "exc":
+                    if p.outcome[0] == "exc" and not (first_fails and with_arch):
                         res.add(f"exception-freedom[{tag}]", p.pc, False).update(detail=str(p.outcome[1:]))
                     continue
                 got += 1
@@ -471,8 +478,10 @@ def inspect_selection_unit(res):
                         res.add(f"selected-iff-named-by-an-item[{tag}]", list(p.pc) + [0 <= j, j < NP], pred(j) == named(lineno(j)))
                         res.add(f"kernel-element-is-the-selected-line-itself[{tag}]", list(p.pc) + [0 <= j, j < L], k.at(j).t == idx(j))
                 else:
-                    ok = k is section and p.extra["rts"] is not None and p.extra["rts"][0] is parsed and p.extra["rts"][1] == "x86"
-                    res.add(f"kernel-is-reduce_to_section(parsed, isa)[{tag}]", p.pc, bool(ok))
+                    want_isa = "aarch64" if (first_fails and not with_arch) else "x86"
+                    ok = k is section and p.extra["rts"] is not None and p.extra["rts"][0] is parsed and p.extra["rts"][1] == want_isa
+                    res.add(f"kernel-is-reduce_to_section(parsed, isa of the parser that accepted the file)[{tag}]", p.pc, bool(ok)).update(
+                        detail=None if ok else f"reduce_to_section called with isa {p.extra['rts'][1] if p.extra['rts'] else None}, the file was parsed as {want_isa}")
                     want = z3.And(NK == NP, NK > 100)
                     res.add(f"length-warning-iff-whole-file-and->100-lines[{tag}]", p.pc, (bool_term(plw) == want) if not isinstance(plw, bool) else (z3.BoolVal(plw) == want))
                 # ---- wiring of the rest of inspect: the SAME kernel object goes through semantics, (two) balancing passes
@@ -483,7 +492,9 @@ def inspect_selection_unit(res):
                 opt = [e for e in log if e[1] == "assign_optimal_throughput"]
                 sem_ok = [e for e in log if e[:2] == ("ArchSemantics", "add_semantics")]
                 w = []
-                w.append(p.extra["mm_args"][1].get("arch") == ("zen2") and not p.extra["mm_args"][0])
+                want_arch = "a64fx" if (first_fails and not with_arch) else "zen2"
+                w.append(p.extra["mm_args"][1].get("arch") == want_arch and not p.extra["mm_args"][0])
+                w.append(p.extra["parsers"] == (["zen2", "a64fx"] if (first_fails and not with_arch) else ["zen2"]))
                 w.append(len(sem_ok) == 1 and sem_ok[0][2][0] is k)
                 w.append(all(e[2][0] is k for e in opt) and len(opt) in (0, 2))
                 kd = [e for e in log if e[:2] == ("KernelDG", "__init__")]
@@ -504,8 +515,22 @@ def inspect_selection_unit(res):
                     flagdeps = kd[0][2][5] if kd and len(kd[0][2]) > 5 else (kd[0][3].get("flag_dependencies") if kd else None)
                     tmo = kd[0][2][4] if kd and len(kd[0][2]) > 4 else (kd[0][3].get("timeout") if kd else None)
                     res.add(f"wiring/graph-options[{tag}]", p.pc, z3.And(bool_term(flagdeps) == z3.Bool("flag_deps"), num_term(tmo)[0] == z3.Int("lcd_timeout")) if flagdeps is not None and tmo is not None else False)
-            res.add(f"reaches-the-reports[{tag}]", [], got >= 1)
+            if first_fails and with_arch:
+                # an explicitly chosen architecture is not second-guessed: the parse error propagates
+                res.add(f"parse-error-propagates-with---arch[{tag}]", [], got == 0 and all(p.outcome[0] == "exc" and p.outcome[1] == "ValueError" for p in paths))
+            else:
+                res.add(f"reaches-the-reports[{tag}]", [], got >= 1)
     return res
+
+
+def _doubling():
+    from .c05 import doubling_unit
+    return doubling_unit
+
+
+def _node_by_lineno():
+    from .c16 import node_by_lineno_unit
+    return node_by_lineno_unit
 
 
 def units(tier):
@@ -517,6 +542,8 @@ def units(tier):
         Unit("C11/match_bytes", match_bytes_unit, "Pb", [(MU, "match_bytes")]),
         Unit("C11/marker-constants+reduce_to_section", constants_unit, "P", [(MU, "find_marked_kernel_x86ATT"), (MU, "find_marked_kernel_AArch64"), (MU, "reduce_to_section")]),
         Unit("C11/transparency/assign_tp_lt(no mnemonic)", tp_lt_trivial_unit, "P", [(AS, "ArchSemantics.assign_tp_lt")]),
+        Unit("C11/line-numbers-are-only-labels/LCD-doubling(symbolic line numbers)", _doubling(), "Pb", [("osaca/semantics/kernel_dg.py", "KernelDG.check_for_loopcarried_dep")]),
+        Unit("C11/line-numbers-are-only-labels/_get_node_by_lineno", _node_by_lineno(), "P", [("osaca/semantics/kernel_dg.py", "KernelDG._get_node_by_lineno")]),
         Unit("C11/get_line_range(any number of items)", line_range_unit, "P", [(OS, "get_line_range")]),
         Unit("C11/inspect/kernel-selection(any file length)", inspect_selection_unit, "P", [(OS, "inspect"), (OS, "get_line_range")]),
         bounded_unit("C11/selection-and-transparency-end-to-end", "c11_select", [(OS, "inspect"), (OS, "get_line_range"), (MU, "reduce_to_section"),
